@@ -507,9 +507,21 @@ def iterator_rules(run, F, E):
                key='the plan iterators disagree on %s' % what)
     for tk, m in (('PlanT', 'operator bool'), ('CPlanT', 'operator bool')):
         for fn in F.find(tk, m):
-            rets = [ir.pp(ir.normalize(s['e'])) for s in ir.walk_stmts(fn.body) if s.get('s') == 'ret']
+            # decided on the summary of the function: what it returns is the comparison "first task index < capacity", however the
+            # bounds are reached (reference, pointer, cached local)
+            from lint import symeval
             cap = (F.rec_by_name.get(fn.cls) or {}).get('consts', {}).get('TASK_CAPACITY')
-            run.ob('C10.d', '%s::operator bool() == (first task index is valid)' % tk, rets == ['(_bounds.first < %s)' % cap], where=fn.pat, detail=rets,
+            bounds = ObjRef({'first': Sym('first'), 'last': Sym('last')}, [])
+            ev = symeval.Eval(F, {'_bounds': bounds, '_planData': ObjRef({'tasksBounds': bounds, 'planExists': Sym('planExists')}, [])}, [])
+            try:
+                r = ev.run(fn, []).ret
+            except symeval.Refuse as ex:
+                raise AnalysisBroken('%s::operator bool is outside the offset-domain fragment: %s' % (tk, ex))
+            t = getattr(r, 'tag', None)
+            ok = isinstance(t, tuple) and len(t) == 4 and t[0] == 'cmp' and (
+                (t[1] == '<' and t[2:] == (Sym('first'), cap)) or (t[1] == '>' and t[2:] == (cap, Sym('first'))) or
+                (t[1] == '<=' and t[2:] == (Sym('first'), cap - 1)) or (t[1] == '>=' and t[2:] == (cap - 1, Sym('first'))))
+            run.ob('C10.d', '%s::operator bool() == (first task index is valid)' % tk, ok, where=fn.pat, detail=repr(r),
                    key='%s emptiness test is inconsistent with the task sequence' % tk)
     for fn in F.find('CPlanT', 'first') + F.find('CPlanT', 'last'):
         rets = [ir.pp(ir.strip(s['e'])) for s in ir.walk_stmts(fn.body) if s.get('s') == 'ret']
